@@ -72,7 +72,7 @@ def parse(t):
     assert ver in (13, 14)
     np_ = k.get()
     kinds = [k.get() for _ in range(np_)]
-    cfg = {"peers": np_, "id_embeds_key": kinds, "maxProtos": k.get(), "bookPerPeerCap": k.get(), "timeout_ns": k.get()}
+    cfg = {"peers": np_, "id_embeds_key": kinds, "maxProtos": k.get(), "bookPerPeerCap": k.get(), "bookMaxUnconnected": k.get(), "timeout_ns": k.get()}
     cfg["conns"] = k.many(lambda: {"peer": k.get(), "remote_class": k.get(), "remote_addr": k.get(), "limited": k.get()})
     cfg["seeded"] = k.many(lambda: (k.get(), k.get(), k.get()))
     addr = lambda: (k.get(), k.get(), k.get())
@@ -222,7 +222,7 @@ if __name__ == "__main__":
              "Connected / Disconnected notifications are delivered in and out of order, identify tasks are answered (crafted multi-chunk "
              "protobuf messages: fields absent / duplicated across chunks / oversized, 9-10-11 chunks, a chunk over signedIDSize, addresses "
              "with own and foreign /p2p suffixes, bare /p2p, unparsable bytes, own / foreign / garbage keys, signed records valid, of another "
-             "peer, wrong peer ID, wrong domain, tampered, wrong type; more addresses than the book's per-peer cap while not connected), refused, or left to "
+             "peer, wrong peer ID, wrong domain, tampered, wrong type; more addresses than the book's per-peer cap while not connected), refused, answered after the exchange is over, or left to "
              "time out against a remote that stalls before / after the negotiation or mid-message, pushes arrive on live and dead "
              "connections; plus real-goroutine race cases (a push racing with the removal + Disconnected of that or another connection, "
              "fired from inside consumeMessage's locked section, judged on the final contents). After EVERY operation: the peerstore calls made (recording wrapper), events, every wait channel, and the "
